@@ -2,6 +2,7 @@ package props
 
 import (
 	"bytes"
+	"context"
 	"encoding/binary"
 	"encoding/json"
 	"fmt"
@@ -404,12 +405,19 @@ func c28TmpBase() string {
 	return ""
 }
 
-// c28WriterCmds runs the real write path (catalog + WAL file + Writer.WriteCSM) in a scratch directory
-// and captures the write commands it queues.
-func c28WriterCmds(w *c28Writer) (cmds []c28Cmd, root string, err error) {
+// c28Sender records what FlushCommandsToWAL hands to the replication sender: the serialized transaction group
+// exactly as the real write path produced it (no hook needed).
+type c28Sender struct{ got [][]byte }
+
+func (s *c28Sender) Run(_ context.Context) {}
+func (s *c28Sender) Send(tg []byte)        { s.got = append(s.got, append([]byte{}, tg...)) }
+
+// c28WriterTG runs the real write path (catalog + WAL file + Writer.WriteCSM, which flushes) in a scratch
+// directory and returns the serialized transaction group it wrote and the data shapes of the bucket.
+func c28WriterTG(w *c28Writer) (ser []byte, shapes []c28Shape, root string, err error) {
 	root, err = os.MkdirTemp(c28TmpBase(), "c28w")
 	if err != nil {
-		return nil, "", err
+		return nil, nil, "", err
 	}
 	defer os.RemoveAll(root)
 	defer func() {
@@ -419,21 +427,22 @@ func c28WriterCmds(w *c28Writer) (cmds []c28Cmd, root string, err error) {
 	}()
 	dir, e := catalog.NewDirectory(root)
 	if e != nil && dir == nil {
-		return nil, root, e
+		return nil, nil, root, e
 	}
 	var wg sync.WaitGroup
 	tpd := executor.StartNewTriggerPluginDispatcher(nil)
 	if c28Pipe == nil {
 		c28Pipe = executor.NewTransactionPipe() // two 1M-slot channels: ~0.7 s to allocate, so shared (always drained)
 	}
-	wf, e := executor.NewWALFile(root, 4711, nil, false, &wg, tpd, c28Pipe)
+	snd := &c28Sender{}
+	wf, e := executor.NewWALFile(root, 4711, snd, false, &wg, tpd, c28Pipe)
 	if e != nil {
-		return nil, root, e
+		return nil, nil, root, e
 	}
 	defer wf.FilePtr.Close()
 	wr, e := executor.NewWriter(dir, wf)
 	if e != nil {
-		return nil, root, e
+		return nil, nil, root, e
 	}
 	cs := io.NewColumnSeries()
 	cs.AddColumn("Epoch", append([]int64{}, w.Epochs...))
@@ -441,7 +450,7 @@ func c28WriterCmds(w *c28Writer) (cmds []c28Cmd, root string, err error) {
 	for j, nm := range w.Names {
 		col, e := mk.Col(w.Types[j], r.Bytes(len(w.Epochs)*mk.SizeOf(w.Types[j])))
 		if e != nil {
-			return nil, root, e
+			return nil, nil, root, e
 		}
 		cs.AddColumn(string(nm), col)
 	}
@@ -455,20 +464,20 @@ func c28WriterCmds(w *c28Writer) (cmds []c28Cmd, root string, err error) {
 	tbk := io.NewTimeBucketKey("SYM/1Min/TST")
 	csm := io.NewColumnSeriesMap()
 	csm.AddColumnSeries(*tbk, cs)
-	var werr error
-	wcs := executor.VerifCaptureWriteCommands(wf, func() { werr = wr.WriteCSM(csm, w.Variable) })
-	if werr != nil {
-		return nil, root, fmt.Errorf("WriteCSM rejected the write: %v", werr)
+	if werr := wr.WriteCSM(csm, w.Variable); werr != nil {
+		return nil, nil, root, fmt.Errorf("WriteCSM rejected the write: %v", werr)
 	}
-	for _, wc := range wcs {
-		c := c28Cmd{RT: int(wc.RecordType), Path: []byte(wc.WALKeyPath), VRL: int64(wc.VarRecLen), Off: wc.Offset, Idx: wc.Index,
-			Data: append([]byte{}, wc.Data...)}
-		for _, ds := range wc.DataShapes {
-			c.Shapes = append(c.Shapes, c28Shape{[]byte(ds.Name), int(ds.Type)})
-		}
-		cmds = append(cmds, c)
+	if len(snd.got) != 1 {
+		return nil, nil, root, fmt.Errorf("write path flushed %d transaction groups", len(snd.got))
 	}
-	return cmds, root, nil
+	tbi, e := dir.GetLatestTimeBucketInfoFromKey(tbk)
+	if e != nil {
+		return nil, nil, root, e
+	}
+	for _, ds := range tbi.GetDataShapesWithEpoch() {
+		shapes = append(shapes, c28Shape{[]byte(ds.Name), int(ds.Type)})
+	}
+	return snd.got[0], shapes, root, nil
 }
 
 func c28Run(raw json.RawMessage) (res Result, err error) {
@@ -479,15 +488,37 @@ func c28Run(raw json.RawMessage) (res Result, err error) {
 	obs := c28Obs{}
 	cmds := in.Cmds
 	root := string(in.Root)
+	var writerShapes []c28Shape
+	var writerSer []byte
 	if in.Kind == "writer" {
 		var e error
-		cmds, root, e = c28WriterCmds(in.Writer)
+		writerSer, writerShapes, root, e = c28WriterTG(in.Writer)
 		if e != nil {
 			// the write path did not accept the write: nothing to round-trip (outside the property's domain)
 			obs.WErr = e.Error()
 			res.Obs, res.Holds, res.Key = obs, true, string(raw)
 			res.Tags = []string{"kind:writer", "writer-rejected"}
 			return res, nil
+		}
+		if len(writerShapes) <= 255 {
+			// decodable: recover the commands with the real decoder; the model must re-encode them to the very bytes
+			// the write path produced
+			cp := append([]byte{}, writerSer...)
+			id, wts := executor.ParseTGData(cp, root)
+			in.TGID = id
+			for _, w := range wts {
+				rel, _ := filepath.Rel(root, w.FilePath)
+				c := c28Cmd{RT: int(w.RecordType), Path: []byte(rel), VRL: int64(w.VarRecLen)}
+				if len(w.Buffer) >= 16 {
+					c.Off, c.Idx, c.Data = w.Buffer.Offset(), w.Buffer.Index(), append([]byte{}, w.Buffer.Payload()...)
+				}
+				for _, ds := range w.DataShapes {
+					c.Shapes = append(c.Shapes, c28Shape{[]byte(ds.Name), int(ds.Type)})
+				}
+				cmds = append(cmds, c)
+			}
+		} else {
+			in.Kind, in.Raw = "raw", writerSer // not decodable into commands: the model sees the bytes
 		}
 	}
 	obs.NCmds = len(cmds)
@@ -535,6 +566,7 @@ func c28Run(raw json.RawMessage) (res Result, err error) {
 		}
 	}
 	obs.Ser = append([]byte{}, ser...)
+	writerMismatch := writerSer != nil && !bytes.Equal(writerSer, ser)
 	// ---- the real decoder, on a buffer with cap = len exactly as walreplay.go readTGData allocates it
 	buf := make([]byte, len(ser))
 	copy(buf, ser)
@@ -600,7 +632,9 @@ func c28Run(raw json.RawMessage) (res Result, err error) {
 	encodable, acceptable, longName, manyShapes := true, true, false, false
 	for _, c := range cmds {
 		base := len(c.Path) < 32768 && len(c.Data) < 1<<31 && c.VRL >= -(1<<31) && c.VRL < 1<<31 && c.RT >= -128 && c.RT <= 127
-		if !base || len(c.Shapes) < 1 {
+		// mirror of TGCodec.acceptableb: + TimeBucketInfo.CheckStorable on the names (elementNameHeaderBytes = 32, no NUL
+		// at either end) and at most maxNumElements = 1024 elements besides Epoch
+		if !base || len(c.Shapes) < 1 || len(c.Shapes) > 1024+1 {
 			acceptable = false
 		}
 		if len(c.Shapes) > 255 {
@@ -610,9 +644,12 @@ func c28Run(raw json.RawMessage) (res Result, err error) {
 			if len(s.Name) > 255 {
 				longName = true
 			}
+			if len(s.Name) > 32 || (len(s.Name) > 0 && (s.Name[0] == 0 || s.Name[len(s.Name)-1] == 0)) {
+				acceptable = false
+			}
 		}
 	}
-	encodable = acceptable && !longName && !manyShapes
+	encodable = c28Encodable(cmds)
 	res.InDomain = in.Kind != "raw" && encodable
 	res.Holds = true
 	if in.Kind != "raw" && acceptable {
@@ -661,14 +698,45 @@ func c28Run(raw json.RawMessage) (res Result, err error) {
 		if !obs.PerFile {
 			fail("writesPerFile buffers differ from the commands' offset/index/payload")
 		}
-		if !res.Holds {
-			switch {
-			case longName:
-				res.Class = "column-name-over-255-bytes"
-			case manyShapes:
-				res.Class = "more-than-255-data-shapes"
+		if !res.Holds && manyShapes {
+			res.Class = "more-than-255-data-shapes"
+		}
+	}
+	if writerShapes != nil && res.Holds {
+		// through the real write path: every decoded write set must carry the bucket's column schema, and
+		// re-encoding the decoded commands must give the bytes the write path wrote
+		if writerMismatch {
+			res.Holds, res.Detail = false, "serializeTG of the decoded commands differs from the transaction group the write path wrote"
+		}
+		if obs.Code != 0 || len(wts) == 0 {
+			res.Holds, res.Detail = false, fmt.Sprintf("the transaction group written by the write path does not decode (code %d, %d write sets)", obs.Code, len(wts))
+		}
+		for i, w := range wts {
+			same := len(w.DataShapes) == len(writerShapes)
+			for j := 0; same && j < len(writerShapes); j++ {
+				same = w.DataShapes[j].Name == string(writerShapes[j].Name) && int(w.DataShapes[j].Type) == writerShapes[j].Type
+			}
+			if !same && res.Holds {
+				res.Holds, res.Detail = false, fmt.Sprintf("write set %d decodes with %d data shapes, the bucket has %d", i, len(w.DataShapes), len(writerShapes))
 			}
 		}
+		if !res.Holds && len(writerShapes) > 255 {
+			res.Class = "more-than-255-data-shapes"
+		}
+	}
+	// the acceptance predicate itself is tied to the code: whatever the real write path accepted must be acceptable
+	if writerShapes != nil {
+		for _, sh := range writerShapes {
+			if len(sh.Name) > 32 || (len(sh.Name) > 0 && (sh.Name[0] == 0 || sh.Name[len(sh.Name)-1] == 0)) {
+				acceptable = false
+			}
+		}
+		if len(writerShapes) > 1025 {
+			acceptable = false
+		}
+	}
+	if writerShapes != nil && !acceptable && res.Holds {
+		res.Holds, res.Detail = false, "the write path (bucket creation + WriteCSM) accepted a write outside the modelled acceptance predicate (CheckStorable: names <= 32 bytes, <= 1024 elements)"
 	}
 	res.Tags = []string{"kind:" + in.Kind, fmt.Sprintf("cmds=%d", bucket(len(cmds))), fmt.Sprintf("code=%d", obs.Code)}
 	if res.InDomain {
@@ -691,6 +759,24 @@ func c28Run(raw json.RawMessage) (res Result, err error) {
 	res.Nontrivial = res.InDomain && len(cmds) >= 1
 	res.Key = string(raw)
 	return res, nil
+}
+
+// c28Encodable mirrors TGCodec.encodableb (the guard of C28_roundtrip).
+func c28Encodable(cmds []c28Cmd) bool {
+	for _, c := range cmds {
+		if !(len(c.Path) < 32768 && len(c.Data) < 1<<31 && c.VRL >= -(1<<31) && c.VRL < 1<<31 && c.RT >= -128 && c.RT <= 127) {
+			return false
+		}
+		if len(c.Shapes) < 1 || len(c.Shapes) > 255 {
+			return false
+		}
+		for _, s := range c.Shapes {
+			if len(s.Name) > 255 {
+				return false
+			}
+		}
+	}
+	return true
 }
 
 func trunc(s string) string {
